@@ -128,11 +128,15 @@ pub fn operand(i: usize) -> H {
         19 => big(31, 0, false),
         20 => big(31, 0, true),
         21 => big(32, -1, false),
-        _ => big(63, 1, true),
+        22 => big(63, 1, true),
+        23 => big(127, 0, false),
+        24 => big(127, 0, true),
+        25 => big(127, -1, false),
+        _ => big(128, 0, true),
     }
 }
 
-pub const NOPER: usize = 23;
+pub const NOPER: usize = 27;
 
 // Programs whose effect (division by zero) sits in an evaluated or unevaluated position.
 fn planted(p: &H, k: u64) -> (H, &'static str) {
@@ -163,7 +167,7 @@ impl Prop for C02P {
                 sec("inferred-programs", tier.pick(18_000, 120_000)),
                 sec("planted-effects", tier.pick(10_000, 80_000)),
             ],
-            "generated explicit and inferred programs (integers beyond 64 and 200 bits, recursion, mutual recursion, groups of 1-5 definitions, higher-order and polymorphic functions) run by gram and by an environment-based call-by-value reference interpreter on the source AST; every arithmetic and comparison operator on every pair of 23 operands (0, +-1..3, +-7, +-2^31, 2^32-1, +-(2^63-1), +-2^63, -(2^63+1), +-2^64, +-(2^64+1), +-(2^200+12345)); int programs wrapped so that a division by zero sits in an evaluated or an unevaluated position (8 placements); gram's step budget is 20 x reference reductions + 200; non-trivial = distinct program on which both sides produced an outcome that was compared",
+            "generated explicit and inferred programs (integers beyond 64 and 200 bits, recursion, mutual recursion, groups of 1-5 definitions, higher-order and polymorphic functions) run by gram and by an environment-based call-by-value reference interpreter on the source AST; every arithmetic and comparison operator on every pair of 27 operands (0, +-1..3, +-7, +-2^31, 2^32-1, +-(2^63-1), +-2^63, -(2^63+1), +-2^64, +-(2^64+1), +-2^127, 2^127-1, -2^128, +-(2^200+12345)); int programs wrapped so that a division by zero sits in an evaluated or an unevaluated position (8 placements); gram's step budget is 20 x reference reductions + 200; non-trivial = distinct program on which both sides produced an outcome that was compared",
         );
         p.assumptions = vec![
             "R-eval (harness/src/reval.rs) is the semantics of DESIGN.md A.7; truncating division is derived from unsigned magnitudes".into(),
